@@ -6,17 +6,21 @@ open PlzVerif.Walk (Name)
 
 /-! ### the inode table only grows (nothing that exists is written to) -/
 
-theorem copyFile_prefix {F : Facts} {inos : List Inode} {i mode : Nat} {cur : Option Node} {d : Node} {inos' : List Inode}
-    (h : copyFile F inos i mode cur = .ok (d, inos')) : inos <+: inos' := by
+theorem copyFile_prefix {F : Facts} (hF : F.tempThenRename = true) {inos : List Inode} {i mode : Nat} {cur : Option Node}
+    {d : Node} {inos' : List Inode} (h : copyFile F inos i mode cur = .ok (d, inos')) : inos <+: inos' := by
   unfold copyFile at h
   split at h
   · cases h
-  · split at h
+  · simp only [hF, if_true] at h
+    split at h
     · cases h
     · cases h; exact List.prefix_append _ _
+    · cases h; exact List.prefix_append _ _
+    · cases h; exact List.prefix_append _ _
 
-theorem copyOrLinkRegular_prefix {F : Facts} {p : Params} {inos : List Inode} {i : Nat} {cur : Option Node} {d : Node}
-    {inos' : List Inode} (h : copyOrLinkRegular F p inos i cur = .ok (d, inos')) : inos <+: inos' := by
+theorem copyOrLinkRegular_prefix {F : Facts} (hF : F.tempThenRename = true) {p : Params} {inos : List Inode} {i : Nat}
+    {cur : Option Node} {d : Node} {inos' : List Inode} (h : copyOrLinkRegular F p inos i cur = .ok (d, inos')) :
+    inos <+: inos' := by
   unfold copyOrLinkRegular at h
   split at h
   · split at h
@@ -24,15 +28,15 @@ theorem copyOrLinkRegular_prefix {F : Facts} {p : Params} {inos : List Inode} {i
       · cases h; exact List.prefix_refl _
       · cases h
     · split at h
-      · exact copyFile_prefix h
+      · exact copyFile_prefix hF h
       · cases h
-  · exact copyFile_prefix h
+  · exact copyFile_prefix hF h
 
 mutual
-theorem copyNode_prefix (F : Facts) (p : Params) : ∀ (src : Node) (cur : Option Node) (inos inos' : List Inode) (d : Node),
+theorem copyNode_prefix (F : Facts) (hF : F.tempThenRename = true) (p : Params) : ∀ (src : Node) (cur : Option Node) (inos inos' : List Inode) (d : Node),
     copyNode F p src cur inos = .ok (d, inos') → inos <+: inos'
   | .file i, cur, inos, inos', d, h => by
-    simp only [copyNode] at h; exact copyOrLinkRegular_prefix h
+    simp only [copyNode] at h; exact copyOrLinkRegular_prefix hF h
   | .link t, cur, inos, inos', d, h => by
     simp only [copyNode, symlinkAt] at h
     cases cur <;> simp [Except.map] at h
@@ -45,7 +49,7 @@ theorem copyNode_prefix (F : Facts) (p : Params) : ∀ (src : Node) (cur : Optio
       | error e => simp [hr, Except.map] at h
       | ok r =>
         simp only [hr, Except.map, Except.ok.injEq, Prod.mk.injEq] at h
-        rw [← h.2]; exact copyEnts_prefix F p es .nil inos r.2 r.1 (by rw [hr])
+        rw [← h.2]; exact copyEnts_prefix F hF p es .nil inos r.2 r.1 (by rw [hr])
     | some c =>
       cases c with
       | dir ds =>
@@ -53,10 +57,10 @@ theorem copyNode_prefix (F : Facts) (p : Params) : ∀ (src : Node) (cur : Optio
         | error e => simp [hr, Except.map] at h
         | ok r =>
           simp only [hr, Except.map, Except.ok.injEq, Prod.mk.injEq] at h
-          rw [← h.2]; exact copyEnts_prefix F p es ds inos r.2 r.1 (by rw [hr])
+          rw [← h.2]; exact copyEnts_prefix F hF p es ds inos r.2 r.1 (by rw [hr])
       | file _ => simp at h
       | link _ => simp at h
-theorem copyEnts_prefix (F : Facts) (p : Params) : ∀ (es ds : Ents) (inos inos' : List Inode) (ds' : Ents),
+theorem copyEnts_prefix (F : Facts) (hF : F.tempThenRename = true) (p : Params) : ∀ (es ds : Ents) (inos inos' : List Inode) (ds' : Ents),
     copyEnts F p es ds inos = .ok (ds', inos') → inos <+: inos'
   | .nil, ds, inos, inos', ds', h => by
     simp only [copyEnts, Except.ok.injEq, Prod.mk.injEq] at h; rw [h.2]; exact List.prefix_refl _
@@ -67,7 +71,7 @@ theorem copyEnts_prefix (F : Facts) (p : Params) : ∀ (es ds : Ents) (inos inos
     | ok r =>
       obtain ⟨y, mid⟩ := r
       simp only [hx] at h
-      exact (copyNode_prefix F p x _ inos mid y hx).trans (copyEnts_prefix F p rest _ mid inos' ds' h)
+      exact (copyNode_prefix F hF p x _ inos mid y hx).trans (copyEnts_prefix F hF p rest _ mid inos' ds' h)
 end
 
 theorem prefix_getElem? {α} {a b : List α} (h : a <+: b) {i : Nat} (hi : i < a.length) : b[i]? = a[i]? := by
